@@ -574,6 +574,16 @@ def gen_c16(k):
             fields = []
             if form == "struct":
                 fu = set()
+                # error enums commonly repeat a field (same name and type) in several variants, each
+                # with its own documentation (or none)
+                earlier = [f for v in vs for f in v[2]]
+                if earlier and R.random() < 0.6:
+                    fn, t, g, ds0 = R.choice(earlier)
+                    ds = R.choice([[], ["about " + fn + " here"], docs()])
+                    if ds == ds0:
+                        ds = ds0 + ["and more"]
+                    fu.add(fn)
+                    fields.append((fn, t, g, ds))
                 for _ in range(R.randint(1, 3)):
                     while True:
                         fn = snake(R.randint(1, 2))
@@ -616,6 +626,80 @@ def gen_c16(k):
     return "".join(s)
 
 
+def c16_systematic():
+    """Every two-level combination of type constructors (outer x inner), as fields of structs with
+    <= 6 fields, alternating the three derives; independent of the seed."""
+    outers = {
+        "opt": lambda t, g: (f"Option<{t}>", f"GTy::Optional(Box::new({g}))"),
+        "vec": lambda t, g: (f"Vec<{t}>", f"GTy::Array(Box::new({g}))"),
+        "slice": lambda t, g: (f"&'a [{t}]", f"GTy::Array(Box::new({g}))"),
+        "hset": lambda t, g: (f"std::collections::HashSet<{t}>", f"GTy::Array(Box::new({g}))"),
+        "bset": lambda t, g: (f"std::collections::BTreeSet<{t}>", f"GTy::Array(Box::new({g}))"),
+        "hmap": lambda t, g: (f"std::collections::HashMap<String, {t}>", f"GTy::Map(Box::new({g}))"),
+        "hmaps": lambda t, g: (f"std::collections::HashMap<&'a str, {t}>", f"GTy::Map(Box::new({g}))"),
+        "bmap": lambda t, g: (f"std::collections::BTreeMap<String, {t}>", f"GTy::Map(Box::new({g}))"),
+        "box": lambda t, g: (f"Box<{t}>", g),
+        "rc": lambda t, g: (f"std::rc::Rc<{t}>", g),
+        "arc": lambda t, g: (f"std::sync::Arc<{t}>", g),
+        "cell": lambda t, g: (f"std::cell::Cell<{t}>", g),
+        "refcell": lambda t, g: (f"std::cell::RefCell<{t}>", g),
+    }
+    inners = [("int", "i64", "GTy::Int"), ("str", "String", "GTy::Str"), ("float", "f64", "GTy::Float"), ("bool", "bool", "GTy::Bool"),
+              ("custom", "Inner", 'GTy::Custom("Inner".into())'), ("unit", "()", "GTy::Struct(vec![])"), ("obj", "serde_json::Value", "GTy::Object")]
+    transparent = ("box", "rc", "arc", "cell", "refcell")
+    fields = []
+    for o1, f1 in outers.items():
+        for iname, it, ig in inners[:3]:
+            t, g = f1(it, ig)
+            fields.append((f"{o1}_{iname}", t, g))
+        for o2, f2 in outers.items():
+            # Varlink has no `??`: leave out Option directly (or through transparent wrappers) inside Option
+            if o1 == "opt" and (o2 == "opt" or o2 in transparent):
+                continue
+            if o1 in transparent and o2 in transparent:
+                continue
+            it, ig = inners[(len(fields)) % len(inners)][1:]
+            t2, g2 = f2(it, ig)
+            t, g = f1(t2, g2)
+            fields.append((f"{o1}_{o2}", t, g))
+    out = []
+    for k in range(0, len(fields), 6):
+        grp = fields[k:k + 6]
+        which = (k // 6) % 3
+        name = f"TSys{k // 6}"
+        life = any("'a" in f[1] for f in grp)
+        lt = "<'a>" if life else ""
+        any_lt = "<'static>" if life else ""
+        s = [f"//! generated: systematic type shapes {name}\n#![allow(unused, non_snake_case, non_camel_case_types, clippy::all)]\nuse crate::prelude::*;\nuse crate::idl::*;\n\n"]
+        s.append("#[derive(zlink_core::introspect::CustomType)]\n#[zlink(crate = \"zlink_core\")]\npub struct Inner { pub a: i64 }\n\n")
+        fexp = "vec![" + ", ".join(f'GField {{ name: "{fn}".into(), comments: vec![], ty: {g} }}' for fn, t, g in grp) + "]"
+        if which in (0, 1):
+            derive = "zlink_core::introspect::Type" if which == 0 else "zlink_core::introspect::CustomType"
+            s.append(f'#[derive({derive})]\n#[zlink(crate = "zlink_core")]\npub struct {name}{lt} {{\n')
+            for fn, t, g in grp:
+                s.append(f"    pub {fn}: {t},\n")
+            s.append("}\n\n")
+            if which == 0:
+                check = f'check_type(rep, "{name}", <{name}{any_lt} as zlink_core::introspect::Type>::TYPE, &GTy::Struct({fexp}));'
+            else:
+                check = (f'check_custom(rep, "{name}", <{name}{any_lt} as zlink_core::introspect::CustomType>::CUSTOM_TYPE, &GMember::Type {{ name: "{name}".into(), comments: vec![], body: GBody::Struct({fexp}) }});\n'
+                         f'        check_type(rep, "{name}", <{name}{any_lt} as zlink_core::introspect::Type>::TYPE, &GTy::Custom("{name}".into()));')
+        else:
+            s.append(f'#[derive(zlink_core::introspect::ReplyError)]\n#[zlink(crate = "zlink_core")]\npub enum {name}{lt} {{\n    First {{\n')
+            for fn, t, g in grp[:3]:
+                s.append(f"        {fn}: {t},\n")
+            s.append("    },\n    Second {\n")
+            for fn, t, g in grp[3:] or grp[:1]:
+                s.append(f"        {fn}: {t},\n")
+            s.append("    },\n}\n\n")
+            fe = lambda g_: "vec![" + ", ".join(f'GField {{ name: "{fn}".into(), comments: vec![], ty: {g} }}' for fn, t, g in g_) + "]"
+            check = (f'check_errors(rep, "{name}", <{name}{any_lt} as zlink_core::introspect::ReplyError>::VARIANTS, &[GMember::Error {{ name: "First".into(), comments: vec![], fields: {fe(grp[:3])} }}, '
+                     f'GMember::Error {{ name: "Second".into(), comments: vec![], fields: {fe(grp[3:] or grp[:1])} }}]);')
+        s.append(f'#[cfg(feature = "drivers")]\npub mod drv {{\n    use super::*;\n    pub fn all(rep: &mut Report, _rng: &mut Rng) {{\n        {check}\n    }}\n}}\n')
+        out.append("".join(s))
+    return out
+
+
 # ---------------------------------------------------------------------------------------------
 n12, n05, n16 = (14, 16, 40) if size == "quick" else (60, 60, 160)
 mods = []
@@ -628,6 +712,9 @@ for k in range(n05):
 for k in range(n16):
     open(os.path.join(out, f"t{k}.rs"), "w").write(gen_c16(k))
     mods.append(("c16", f"t{k}"))
+for k, text in enumerate(c16_systematic()):
+    open(os.path.join(out, f"ts{k}.rs"), "w").write(text)
+    mods.append(("c16", f"ts{k}"))
 with open(os.path.join(out, "mod.rs"), "w") as f:
     f.write("//! generated module list\n")
     for p_, m in mods:
